@@ -312,8 +312,51 @@ def _unpack_of_literal_map(tree):
     return tree
 
 
+def _accumulate_loops(tree):
+    """N11: `x = []` directly followed by `for T in IT: x.append(E)` (optionally under one `if C:` / after guard clauses `if not C: continue`)
+    is the list comprehension `x = [E for T in IT if C]`.  Only when the loop has no else, E / C do not read x, and nothing else is in the body."""
+    for holder in ast.walk(tree):
+        for f in ("body", "orelse", "finalbody"):
+            lst = getattr(holder, f, None)
+            if not (isinstance(lst, list) and lst and isinstance(lst[0], ast.stmt)):
+                continue
+            out = []
+            for st in lst:
+                prev = out[-1] if out else None
+                done = False
+                if isinstance(st, ast.For) and not st.orelse and isinstance(prev, ast.Assign) and len(prev.targets) == 1 and isinstance(prev.targets[0], ast.Name) \
+                        and isinstance(prev.value, ast.List) and not prev.value.elts:
+                    x = prev.targets[0].id
+                    body, conds = list(st.body), []
+                    while True:
+                        if len(body) == 1 and isinstance(body[0], ast.If) and not body[0].orelse:
+                            conds.append(body[0].test)
+                            body = list(body[0].body)
+                            continue
+                        if len(body) >= 2 and isinstance(body[0], ast.If) and not body[0].orelse and len(body[0].body) == 1 and isinstance(body[0].body[0], ast.Continue):
+                            conds.append(ast.copy_location(ast.UnaryOp(op=ast.Not(), operand=body[0].test), body[0].test))
+                            body = body[1:]
+                            continue
+                        break
+                    if len(body) == 1 and isinstance(body[0], ast.Expr) and isinstance(body[0].value, ast.Call) and isinstance(body[0].value.func, ast.Attribute) \
+                            and body[0].value.func.attr == "append" and isinstance(body[0].value.func.value, ast.Name) and body[0].value.func.value.id == x \
+                            and len(body[0].value.args) == 1 and not body[0].value.keywords:
+                        e = body[0].value.args[0]
+                        reads_x = any(isinstance(n, ast.Name) and n.id == x for part in [e, st.iter] + conds for n in ast.walk(part))
+                        bad = any(isinstance(n, (ast.Yield, ast.YieldFrom, ast.Await, ast.NamedExpr)) for part in [e] + conds for n in ast.walk(part))
+                        if not reads_x and not bad:
+                            comp = ast.ListComp(elt=e, generators=[ast.comprehension(target=st.target, iter=st.iter, ifs=[_test(c) for c in conds], is_async=0)])
+                            out[-1] = ast.copy_location(ast.Assign(targets=prev.targets, value=ast.copy_location(comp, st)), prev)
+                            done = True
+                if not done:
+                    out.append(st)
+            setattr(holder, f, out)
+    return tree
+
+
 def normalise(tree: ast.AST) -> ast.AST:
     tree = Normalise().visit(tree)
+    tree = _accumulate_loops(tree)
     tree = _defaultdict_groups(tree)
     tree = _unpack_of_literal_map(tree)
     ast.fix_missing_locations(tree)
